@@ -162,6 +162,10 @@ type (
 		ResponseHeaders []string    `json:"responseHeaders,omitempty"`
 		Trailers        []string    `json:"trailers,omitempty"`
 		Errors          []GRPCError `json:"errors,omitempty"`
+		// Message lists the payload attributes of an explicit request Message(func(){ Attribute(..) }) mapping;
+		// ResponseMessage does the same for the success response (both optional, added for C10).
+		Message         []string `json:"message,omitempty"`
+		ResponseMessage []string `json:"responseMessage,omitempty"`
 	}
 	GRPCError struct {
 		Name string `json:"name"`
